@@ -66,6 +66,7 @@ type dsObs struct {
 	Cls     int      `json:"cls"`
 	Size    int      `json:"size"`
 	Sign    int      `json:"sign"`
+	Detail  string   `json:"detail"` // enumeration members as "name=value;..."; "?" = this view does not expose them
 	Chunked bool     `json:"chunked"`
 	Chunk   []int    `json:"chunk"`
 	F64     readRes  `json:"f64"`
@@ -164,7 +165,7 @@ func projectAttrs(get func() ([]*attrPtr, error), back map[string]string) attrsO
 }
 
 func projectDataset(d *hdf5.Dataset, back map[string]string) dsObs {
-	o := dsObs{Info: "ok", Dims: []int{}, Max: []int{}, Chunk: []int{}, Cls: -1}
+	o := dsObs{Info: "ok", Dims: []int{}, Max: []int{}, Chunk: []int{}, Cls: -1, Detail: "?"}
 	res, _ := lib.Call(func() error {
 		info, err := d.VerifInfo()
 		if err != nil {
